@@ -141,6 +141,27 @@ def handle (line : String) : String :=
   | ["crc", c] => match hexToBytes? c with
     | some b => answer (bytesToHex (be 8 (crc64 b).toNat))
     | none => badCase "crc"
+  | ["cmask", rs, ds] =>
+    -- compound shard: branch lists of the repositories (shard order) and, per document, its repository index and branches.
+    -- model: the mask `Add` stores for each document — positions in the document's *own* repository's branch list.
+    let repos? := (rs.splitOn "|").mapM hexList?
+    let docs? := (ds.splitOn "|").mapM fun e =>
+      match e.splitOn ":" with
+      | [i, b] => do pure (← i.toNat?, ← hexList? b)
+      | _ => none
+    match repos?, docs? with
+    | some repos, some docs =>
+      let masks := docs.map fun (i, br) => branchMaskOf (repos.getD i []) br
+      let model := showList (fun m => match m with | some x => toString x | none => "none") masks
+      match natList? impl with
+      | some ims =>
+        -- the statement on the implementation's masks: decoded against its own repository, each mask gives the document's branches
+        if ims.length == docs.length &&
+            (docs.zip ims).all (fun ((i, br), m) =>
+              maskBranches (repos.getD i []) 64 m 0 == (repos.getD i []).filter (br.contains ·)) then answer model
+        else specFail model "compound-branches"
+      | none => badCase "impl masks"
+    | _, _ => badCase "cmask fields"
   | ["pb", script] => answer ("~".intercalate (runPB PB.fresh (script.splitOn "~") []))
   | ["shard", r, ds, mj, rj] =>
     match repo? r, docs? ds, hexToBytes? mj, hexToBytes? rj with
